@@ -1,4 +1,5 @@
 import UsualProofs.C02.Table
+import Mathlib.Tactic.SplitIfs
 /-!
 # C02 — the main loop: progress, fuel independence, reachable configurations
 -/
@@ -102,22 +103,12 @@ theorem parseChar4_length {exp s rest : Bytes} (h : parseChar4 exp s = .ok rest)
       simp; omega
 
 theorem parseNumber_rest {sd : Bytes → UInt64 × Nat} {s : Bytes} {v : JVal} {rest : Bytes}
-    (h : parseNumber sd s = .ok (v, rest)) : rest = s.dropWhile isNumChar := by
+    (h : parseNumber sd s = .ok (v, rest)) :
+    rest = s.dropWhile isNumChar ∧ convNumber sd (s.takeWhile isNumChar) = some v := by
   unfold parseNumber at h
-  dsimp only at h
-  split at h
-  · cases h
-  · split at h
-    · split at h
-      · cases h
-      · cases h; rfl
-    · split at h
-      · cases h
-      · split at h
-        · cases h; rfl
-        · split at h
-          · cases h
-          · cases h; rfl
+  cases hc : convNumber sd (s.takeWhile isNumChar) with
+  | none => simp [hc] at h
+  | some x => simp only [hc] at h; cases h; exact ⟨rfl, rfl⟩
 
 theorem isNumChar_of_start (c : UInt8) (h : (c == 0x2D || isDigit c) = true) : isNumChar c = true := by
   unfold isNumChar
@@ -125,103 +116,196 @@ theorem isNumChar_of_start (c : UInt8) (h : (c == 0x2D || isDigit c) = true) : i
   · simp [h]
   · simp [h]
 
+/-! inversion of the cases of `step` -/
+
+theorem stepString_next {o : Opts} {st st' : St} {src rest : Bytes} (h : stepString o st src = .next st' rest) :
+    STEP st.state T_STRING ≠ 0 ∧ ∃ body esc s, scanBody o src = .ok (body, esc, rest) ∧
+      unescape body esc = .ok s ∧ attach { st with state := STEP st.state T_STRING } (.str s) = .ok st' := by
+  unfold stepString at h
+  obtain ⟨h0, h⟩ := withTok_next h
+  refine ⟨h0, ?_⟩
+  cases hb : scanBody o src with
+  | error e => simp [hb] at h
+  | ok p =>
+    obtain ⟨body, esc, r⟩ := p
+    simp only [hb] at h
+    split at h
+    · cases h
+    · cases hu : unescape body esc with
+      | error e => simp [hu] at h
+      | ok s =>
+        simp only [hu] at h
+        obtain ⟨rfl, ha⟩ := valueStep_next h
+        exact ⟨body, esc, s, rfl, hu, ha⟩
+
+theorem stepLit_next {st st' : St} {exp : Bytes} {v : JVal} {src rest : Bytes}
+    (h : stepLit st exp v src = .next st' rest) :
+    STEP st.state T_OTHER ≠ 0 ∧ parseChar4 exp src = .ok rest ∧
+      attach { st with state := STEP st.state T_OTHER } v = .ok st' := by
+  unfold stepLit at h
+  obtain ⟨h0, h⟩ := withTok_next h
+  refine ⟨h0, ?_⟩
+  cases hp : parseChar4 exp src with
+  | error e => simp [hp] at h
+  | ok r =>
+    simp only [hp] at h
+    obtain ⟨rfl, ha⟩ := valueStep_next h
+    exact ⟨rfl, ha⟩
+
+theorem stepNumber_next {sd : Bytes → UInt64 × Nat} {st st' : St} {src rest : Bytes}
+    (h : stepNumber sd st src = .next st' rest) :
+    STEP st.state T_OTHER ≠ 0 ∧ ∃ v, parseNumber sd src = .ok (v, rest) ∧
+      attach { st with state := STEP st.state T_OTHER } v = .ok st' := by
+  unfold stepNumber at h
+  obtain ⟨h0, h⟩ := withTok_next h
+  refine ⟨h0, ?_⟩
+  cases hp : parseNumber sd src with
+  | error e => simp [hp] at h
+  | ok p =>
+    obtain ⟨v, r⟩ := p
+    simp only [hp] at h
+    obtain ⟨rfl, ha⟩ := valueStep_next h
+    exact ⟨v, rfl, ha⟩
+
+theorem stepOpen_next {st st' : St} {tok : Nat} {f : Frame} {src rest : Bytes}
+    (h : stepOpen st tok f src = .next st' rest) :
+    STEP st.state tok ≠ 0 ∧ rest = src ∧ openC { st with state := STEP st.state tok } f = .ok st' := by
+  unfold stepOpen at h
+  obtain ⟨h0, h⟩ := withTok_next h
+  refine ⟨h0, ?_⟩
+  cases ho : openC { st with state := STEP st.state tok } f with
+  | error e => simp [ho] at h
+  | ok s => simp only [ho] at h; cases h; exact ⟨rfl, rfl⟩
+
+theorem stepClose_next {st st' : St} {tok : Nat} {src rest : Bytes}
+    (h : stepClose st tok src = .next st' rest) :
+    STEP st.state tok ≠ 0 ∧ rest = src ∧ closeC { st with state := STEP st.state tok } = .ok st' := by
+  unfold stepClose at h
+  obtain ⟨h0, h⟩ := withTok_next h
+  refine ⟨h0, ?_⟩
+  cases ho : closeC { st with state := STEP st.state tok } with
+  | error e => simp [ho] at h
+  | ok s => simp only [ho] at h; cases h; exact ⟨rfl, rfl⟩
+
+theorem stepColon_next {st st' : St} {src rest : Bytes} (h : stepColon st src = .next st' rest) :
+    STEP st.state T_COLON ≠ 0 ∧ rest = src ∧ addKey { st with state := STEP st.state T_COLON } = .ok st' := by
+  unfold stepColon at h
+  obtain ⟨h0, h⟩ := withTok_next h
+  refine ⟨h0, ?_⟩
+  cases ho : addKey { st with state := STEP st.state T_COLON } with
+  | error e => simp [ho] at h
+  | ok s => simp only [ho] at h; cases h; exact ⟨rfl, rfl⟩
+
+theorem stepComma_next {o : Opts} {st st' : St} {src rest : Bytes} (h : stepComma o st src = .next st' rest) :
+    (o.relaxed = true ∧ (skipExtraComma src st.state).2 = true ∧ st' = st ∧ rest = (skipExtraComma src st.state).1) ∨
+    (STEP st.state T_COMMA ≠ 0 ∧ st' = { st with state := STEP st.state T_COMMA } ∧
+      rest = (if o.relaxed then (skipExtraComma src st.state).1 else src)) := by
+  unfold stepComma at h
+  by_cases hc : (o.relaxed && (skipExtraComma src st.state).2) = true
+  · simp only [hc, if_true] at h
+    cases h
+    simp only [Bool.and_eq_true] at hc
+    exact Or.inl ⟨hc.1, hc.2, rfl, rfl⟩
+  · rw [if_neg hc] at h
+    obtain ⟨h0, h⟩ := withTok_next h
+    cases h
+    exact Or.inr ⟨h0, rfl, rfl⟩
+
+theorem stepSlash_next {o : Opts} {st st' : St} {src rest : Bytes} (h : stepSlash o st src = .next st' rest) :
+    o.relaxed = true ∧ st' = st ∧ skipComment src = some rest := by
+  unfold stepSlash at h
+  by_cases hr : o.relaxed = true
+  · simp only [hr, if_true] at h
+    cases hs : skipComment src with
+    | none => simp [hs] at h
+    | some r => simp only [hs] at h; cases h; exact ⟨hr, rfl, rfl⟩
+  · simp [hr] at h
+
+theorem skipExtraComma_length (src : Bytes) (s : Nat) : (skipExtraComma src s).1.length ≤ src.length := by
+  unfold skipExtraComma
+  exact (List.dropWhile_suffix _).length_le
+
+/-- peel one `if` off a hypothesis `h : (if c then a else b) = x` where `a = x` is absurd -/
+macro "peel_if " h:ident : tactic =>
+  `(tactic| (first
+    | (rw [if_neg (by assumption)] at $h:ident)
+    | (rw [if_pos (by assumption)] at $h:ident)))
+
+theorem classify_num {c : UInt8} (h : classify c = .num) : isNumChar c = true := by
+  unfold classify at h
+  by_cases h1 : isWsByte c = true
+  · rw [if_pos h1] at h; cases h
+  rw [if_neg h1] at h
+  by_cases h2 : (c == 0x22) = true
+  · rw [if_pos h2] at h; cases h
+  rw [if_neg h2] at h
+  by_cases h3 : (c == 0x6E) = true
+  · rw [if_pos h3] at h; cases h
+  rw [if_neg h3] at h
+  by_cases h4 : (c == 0x74) = true
+  · rw [if_pos h4] at h; cases h
+  rw [if_neg h4] at h
+  by_cases h5 : (c == 0x66) = true
+  · rw [if_pos h5] at h; cases h
+  rw [if_neg h5] at h
+  by_cases h6 : (c == 0x2D || isDigit c) = true
+  · exact isNumChar_of_start c h6
+  rw [if_neg h6] at h
+  by_cases h7 : (c == 0x5B) = true
+  · rw [if_pos h7] at h; cases h
+  rw [if_neg h7] at h
+  by_cases h8 : (c == 0x7B) = true
+  · rw [if_pos h8] at h; cases h
+  rw [if_neg h8] at h
+  by_cases h9 : (c == 0x5D) = true
+  · rw [if_pos h9] at h; cases h
+  rw [if_neg h9] at h
+  by_cases h10 : (c == 0x7D) = true
+  · rw [if_pos h10] at h; cases h
+  rw [if_neg h10] at h
+  by_cases h11 : (c == 0x3A) = true
+  · rw [if_pos h11] at h; cases h
+  rw [if_neg h11] at h
+  by_cases h12 : (c == 0x2C) = true
+  · rw [if_pos h12] at h; cases h
+  rw [if_neg h12] at h
+  by_cases h13 : (c == 0x2F) = true
+  · rw [if_pos h13] at h; cases h
+  rw [if_neg h13] at h
+  cases h
+
 theorem step_length {sd : Bytes → UInt64 × Nat} {o : Opts} {st : St} {c : UInt8} {src : Bytes}
     {st' : St} {rest : Bytes} (h : step sd o st c src = .next st' rest) :
     rest.length ≤ src.length := by
   unfold step at h
-  split at h
-  · cases h; exact List.length_dropWhile_le _ _
-  split at h
-  · obtain ⟨_, h⟩ := withTok_next h
-    cases hb : scanBody o src with
-    | error e => simp [hb] at h
-    | ok p =>
-      obtain ⟨body, esc, r⟩ := p
-      simp only [hb] at h
-      split at h
-      · cases h
-      · cases hu : unescape body esc with
-        | error e => simp [hu] at h
-        | ok s =>
-          simp only [hu] at h
-          obtain ⟨rfl, _⟩ := valueStep_next h
-          exact scanBody_length hb
-  split at h
-  · obtain ⟨_, h⟩ := withTok_next h
-    cases hp : parseChar4 C_NULL (c :: src) with
-    | error e => simp [hp] at h
-    | ok r =>
-      simp only [hp] at h
-      obtain ⟨rfl, _⟩ := valueStep_next h
-      have := parseChar4_length hp
-      simp at this; omega
-  split at h
-  · obtain ⟨_, h⟩ := withTok_next h
-    cases hp : parseChar4 C_TRUE (c :: src) with
-    | error e => simp [hp] at h
-    | ok r =>
-      simp only [hp] at h
-      obtain ⟨rfl, _⟩ := valueStep_next h
-      have := parseChar4_length hp
-      simp at this; omega
-  split at h
-  · obtain ⟨_, h⟩ := withTok_next h
-    cases hp : parseChar4 C_ALSE src with
-    | error e => simp [hp] at h
-    | ok r =>
-      simp only [hp] at h
-      obtain ⟨rfl, _⟩ := valueStep_next h
-      have := parseChar4_length hp
-      omega
-  split at h
-  · rename_i hnum
-    obtain ⟨_, h⟩ := withTok_next h
-    cases hp : parseNumber sd (c :: src) with
-    | error e => simp [hp] at h
-    | ok p =>
-      obtain ⟨v, r⟩ := p
-      simp only [hp] at h
-      obtain ⟨rfl, _⟩ := valueStep_next h
-      have := parseNumber_rest hp
-      rw [this, List.dropWhile_cons_of_pos (isNumChar_of_start c hnum)]
-      exact List.length_dropWhile_le _ _
-  split at h
-  · obtain ⟨_, h⟩ := withTok_next h
-    cases ho : openC { st with state := STEP st.state T_OPEN_LIST } (.list []) with
-    | error e => simp [ho] at h
-    | ok s => simp only [ho] at h; cases h; exact Nat.le_refl _
-  split at h
-  · obtain ⟨_, h⟩ := withTok_next h
-    cases ho : openC { st with state := STEP st.state T_OPEN_DICT } (.dict [] none) with
-    | error e => simp [ho] at h
-    | ok s => simp only [ho] at h; cases h; exact Nat.le_refl _
-  split at h
-  · obtain ⟨_, h⟩ := withTok_next h
-    cases ho : closeC { st with state := STEP st.state T_CLOSE_LIST } with
-    | error e => simp [ho] at h
-    | ok s => simp only [ho] at h; cases h; exact Nat.le_refl _
-  split at h
-  · obtain ⟨_, h⟩ := withTok_next h
-    cases ho : closeC { st with state := STEP st.state T_CLOSE_DICT } with
-    | error e => simp [ho] at h
-    | ok s => simp only [ho] at h; cases h; exact Nat.le_refl _
-  split at h
-  · obtain ⟨_, h⟩ := withTok_next h
-    cases ho : addKey { st with state := STEP st.state T_COLON } with
-    | error e => simp [ho] at h
-    | ok s => simp only [ho] at h; cases h; exact Nat.le_refl _
-  split at h
-  · split at h
-    · cases h; exact List.length_dropWhile_le _ _
-    · obtain ⟨_, h⟩ := withTok_next h
-      cases h
-      split
-      · exact List.length_dropWhile_le _ _
+  cases hc : classify c <;> simp only [hc] at h
+  · cases h; exact (List.dropWhile_suffix _).length_le
+  · obtain ⟨_, body, esc, s, hb, _, _⟩ := stepString_next h
+    exact scanBody_length hb
+  · obtain ⟨_, hp, _⟩ := stepLit_next h
+    have := parseChar4_length hp
+    simp at this; omega
+  · obtain ⟨_, hp, _⟩ := stepLit_next h
+    have := parseChar4_length hp
+    simp at this; omega
+  · obtain ⟨_, hp, _⟩ := stepLit_next h
+    have := parseChar4_length hp
+    omega
+  · obtain ⟨_, v, hp, _⟩ := stepNumber_next h
+    rw [(parseNumber_rest hp).1, List.dropWhile_cons_of_pos (classify_num hc)]
+    exact (List.dropWhile_suffix _).length_le
+  · obtain ⟨_, rfl, _⟩ := stepOpen_next h; exact Nat.le_refl _
+  · obtain ⟨_, rfl, _⟩ := stepOpen_next h; exact Nat.le_refl _
+  · obtain ⟨_, rfl, _⟩ := stepClose_next h; exact Nat.le_refl _
+  · obtain ⟨_, rfl, _⟩ := stepClose_next h; exact Nat.le_refl _
+  · obtain ⟨_, rfl, _⟩ := stepColon_next h; exact Nat.le_refl _
+  · rcases stepComma_next h with ⟨_, _, _, rfl⟩ | ⟨_, _, rfl⟩
+    · exact skipExtraComma_length _ _
+    · split
+      · exact skipExtraComma_length _ _
       · exact Nat.le_refl _
-  split at h
-  · cases hs : skipComment src with
-    | none => simp [hs] at h
-    | some r => simp only [hs] at h; cases h; exact skipComment_length _ _ hs
+  · obtain ⟨_, _, hs⟩ := stepSlash_next h
+    exact skipComment_length _ _ hs
   · cases h
 
 /-! ## fuel independence -/
